@@ -39,6 +39,19 @@ ASSIGN_TRAITS = {
     "core::ops::DivAssign": "div", "core::ops::RemAssign": "rem",
 }
 
+def _subst_closure(term, clo, acc, el):
+    """instantiate a closure body leaf  |acc, elem| ...  (parameters: p0 = environment, p1, p2)"""
+    env = clo
+    def f(a):
+        if a[0] == "param":
+            return {0: env, 1: acc, 2: el}.get(a[1], mk(*a))
+        if a[0] == "field" and tag(a[1]) == "agg" and a[2] < len(a[1][2]) and a[1][2][a[2]] is not None:
+            return a[1][2][a[2]]
+        if a[0] == "deref" and tag(a[1]) not in ("ref", "vref", None) :
+            return a[1]
+        return mk(*a)
+    return rebuild(term, f, {})
+
 def strip_ref(t):
     t = t.strip()
     while t.startswith("&"):
@@ -88,24 +101,28 @@ def in_range(ty, v):
 COVERED = set()     # idents of every body evaluated (entry or inlined) in this process
 
 class Frame:
-    __slots__ = ("body", "mir", "locs", "ret_to", "depth", "visited")
+    __slots__ = ("body", "mir", "locs", "ret_to", "depth", "visited", "seen_at", "revisits")
     def __init__(self, body, mir, locs, ret_to, depth):
         self.body = body; self.mir = mir; self.locs = locs; self.ret_to = ret_to
         self.depth = depth; self.visited = frozenset()
+        self.seen_at = {}       # block -> number of symbolic forks on the path when last visited
+        self.revisits = 0
 
 class State:
-    __slots__ = ("frames", "store", "known", "nloc", "asserts")
+    __slots__ = ("frames", "store", "known", "nloc", "asserts", "nforks")
     def __init__(self):
-        self.frames = []; self.store = {}; self.known = {}; self.nloc = [0]; self.asserts = []
+        self.frames = []; self.store = {}; self.known = {}; self.nloc = [0]; self.asserts = []; self.nforks = 0
     def fork(self):
         s = State()
         s.frames = []
         for f in self.frames:
             g = Frame(f.body, f.mir, f.locs, f.ret_to, f.depth)
             g.visited = f.visited
+            g.seen_at = dict(f.seen_at); g.revisits = f.revisits
             s.frames.append(g)
         s.store = dict(self.store); s.known = dict(self.known); s.nloc = self.nloc
         s.asserts = list(self.asserts)
+        s.nforks = self.nforks + 1
         return s
     def alloc(self):
         self.nloc[0] += 1
@@ -173,6 +190,58 @@ class Policy:
         self._loopy[k] = loop or rec
         return self._loopy[k]
 
+    def only_iterator_loops(self, callee):
+        """the body is not recursive and every loop in it is driven by Iterator::next on a slice iterator
+        (such loops have a concrete trip count over a constant table and are unrolled by the evaluator)"""
+        k = ("iter", callee.key)
+        if k in self._loopy:
+            return self._loopy[k]
+        m = callee.mir
+        calls_iter = False; rec = False
+        next_blocks = set()
+        for i, b in enumerate(m["blocks"]):
+            t = b["t"]
+            if t["k"] == "call" and "f" in t:
+                r = t["f"].get("res") or t["f"]
+                d = F.norm_path(r.get("def", ""))
+                if r.get("key") == callee.key:
+                    rec = True
+                if d.startswith("core::slice::<impl [T]>::iter"):
+                    calls_iter = True
+                if d.endswith("Iterator>::next") or d == "core::iter::Iterator::next":
+                    next_blocks.add(i)
+        ok = calls_iter and not rec and bool(next_blocks)
+        if ok:
+            # every cycle must pass through a block that calls next(): remove those blocks and look for a cycle
+            succ = {}
+            for i, b in enumerate(m["blocks"]):
+                t = b["t"]; kk = t["k"]; out = []
+                if kk in ("goto", "drop", "assert"):
+                    out.append(t["t"])
+                elif kk == "call" and t["t"] is not None:
+                    out.append(t["t"])
+                elif kk == "switch":
+                    out.extend(t["targets"]); out.append(t["otherwise"])
+                succ[i] = [] if i in next_blocks else out
+            color = {}
+            def dfs(v):
+                stack = [(v, iter(succ[v]))]; color[v] = 1
+                while stack:
+                    n, it = stack[-1]
+                    for c in it:
+                        if color.get(c) == 1:
+                            return True
+                        if c not in color:
+                            color[c] = 1; stack.append((c, iter(succ[c]))); break
+                    else:
+                        color[n] = 2; stack.pop()
+                return False
+            for v in range(len(m["blocks"])):
+                if v not in color and dfs(v):
+                    ok = False; break
+        self._loopy[k] = ok
+        return ok
+
     def is_accessor(self, callee):
         """single-block bodies without calls or arithmetic (field getters such as hi()/lo())"""
         m = callee.mir
@@ -196,7 +265,8 @@ class Policy:
         if self.level == "none":
             return False
         if callee.kind == "Closure":
-            return True     # a closure called directly is private code of its parent
+            # a closure called directly is private code of its parent (one with a loop stays a call)
+            return not self.has_loop_or_recursion(callee)
         if depth >= self.max_depth:
             return False
         if self.level == "prim":
@@ -204,7 +274,7 @@ class Policy:
         if callee.ident() in self.inline_extra:
             return True
         if self.inline_private and not callee.reachable and callee.kind != "Closure" and self.op_of(callee) is None \
-                and not self.has_loop_or_recursion(callee):
+                and (not self.has_loop_or_recursion(callee) or self.only_iterator_loops(callee)):
             return True
         # op level: inline only conversions between TwoFloat and tuples/arrays (pure projections)
         if callee.trait == "core::convert::From" and callee.name == "from":
@@ -221,6 +291,7 @@ class Exec:
         self.loops = loops          # "reject": Unsupported on any loop; "havoc": over-approximate loops
         self.hooks = hooks          # optional object with decide(cond, st) / on_assert(...) / on_panic(...)
         self.hv = 0
+        self.iterated = []          # (carray, lo, hi) of every constant table iterated over
         self._loopinfo = {}
         self.loop_entries = []      # (body ident, head, {local: (value before the loop, havoc term)})
 
@@ -794,12 +865,85 @@ class Exec:
     _CMP = re.compile(r"^core::cmp::impls::<impl core::cmp::Partial(Ord|Eq) for f64>::(lt|le|gt|ge|eq|ne)$")
     FMA_NAMES = ("core::f64::<impl f64>::mul_add", "libm::fma", "libm::math::fma", "libm::math::fma::fma")
 
+    def concrete_loop(self, st, fr, head):
+        """a loop driven by a concrete slice iterator held in a local (then it is unrolled, not havoc'd)"""
+        cs, assigned, through = self.loop_info(fr.mir)[head]
+        for l in range(len(fr.mir["locals"])):
+            v = st.store.get(fr.locs[l])
+            if tag(v) == "sliceiter":
+                return True
+        return False
+
+    def slice_view(self, st, v):
+        """(carray, lo, hi) of a constant table or constant-range slice of one"""
+        from . import idioms
+        v = self.deref_value(st, v)
+        return idioms.slice_of(v)
+
+    def iterator_foreign(self, st, base, r, args, raw_args):
+        """Concrete model of slice iteration over constant tables: iter / rev / into_iter / next / fold /
+        unwrap.  Returns a value or None."""
+        if base.startswith("core::slice::<impl [T]>::iter") and len(args) == 1:
+            sl = self.slice_view(st, args[0])
+            if sl is not None:
+                self.iterated.append(sl)
+                return mk("sliceiter", sl[0], sl[1], sl[2], 0)
+            return None
+        a0 = self.deref_value(st, args[0]) if args else None
+        if tag(a0) != "sliceiter" and not (base.startswith("core::option::Option::<T>::unwrap") or base.startswith("core::option::Option::<T>::expect")):
+            return None
+        if base.startswith("core::iter::Iterator::rev") and len(args) == 1:
+            return mk("sliceiter", a0[1], a0[2], a0[3], 1 - a0[4])
+        if base.endswith("IntoIterator>::into_iter") or base.startswith("core::iter::IntoIterator::into_iter") or "IntoIterator for I>::into_iter" in base:
+            return a0
+        if base.endswith("Iterator>::next") or base.startswith("core::iter::Iterator::next") or base.endswith("::next"):
+            ra = raw_args[0]
+            if tag(ra) != "ref":
+                return None
+            carr, lo, hi, rev = a0[1], a0[2], a0[3], a0[4]
+            if lo >= hi:
+                return mk("agg", ("adt", "core::option::Option", 0, "None"), ())
+            idx = hi - 1 if rev else lo
+            nlo, nhi = (lo, hi - 1) if rev else (lo + 1, hi)
+            self.store_to(st, ra[1], tuple(ra[2]), mk("sliceiter", carr, nlo, nhi, rev))
+            el = self.index(carr, mk_const("usize", idx))
+            loc = st.alloc(); st.store[loc] = el
+            return mk("agg", ("adt", "core::option::Option", 1, "Some"), (mk("ref", loc, ()),))
+        if (base.endswith("Iterator>::fold") or base.startswith("core::iter::Iterator::fold")) and len(args) == 3:
+            carr, lo, hi, rev = a0[1], a0[2], a0[3], a0[4]
+            clo = self.deref_value(st, args[2])
+            if tag(clo) != "agg" or clo[1][0] != "closure":
+                return None
+            cb = self.facts.by_key.get(clo[1][1])
+            if cb is None:
+                return None
+            sub = Exec(self.facts, self.policy, max_nodes=2000)
+            leaf = sub.run_body(cb)
+            if leaf[0] != "leaf" or leaf[2]:
+                return None
+            acc = self.deref_value(st, args[1])
+            order = range(hi - 1, lo - 1, -1) if rev else range(lo, hi)
+            for i in order:
+                el = self.index(carr, mk_const("usize", i))
+                acc = _subst_closure(leaf[1], clo, acc, el)
+            return acc
+        if base.startswith("core::option::Option::<T>::unwrap") or base.startswith("core::option::Option::<T>::expect"):
+            ra = raw_args[0]
+            v = ra if tag(ra) == "agg" else self.deref_value(st, ra)
+            if tag(v) == "agg" and v[1][0] == "adt" and v[1][3] == "Some":
+                return (ra if tag(ra) == "agg" else v)[2][0]
+            return None
+        return None
+
     def primitive_foreign(self, st, name, r, args):
         """Foreign items that are IEEE primitives on f64 (std's operator impls on references,
         mul_add / libm::fma, recip)."""
         if r is None:
             return None
         base = F.norm_path(r["def"])
+        it = self.iterator_foreign(st, base, r, args, args)
+        if it is not None:
+            return it
         m = self._ARITH.match(base)
         if m:
             a = self.deref_value(st, args[0]); b = self.deref_value(st, args[1])
@@ -934,6 +1078,11 @@ class Exec:
             if self.nodes > self.max_nodes:
                 raise Unsupported("node budget exceeded")
             fr = st.frames[-1]
+            if bi in fr.visited and fr.seen_at.get(bi) == st.nforks and fr.revisits < 400:
+                # the path from this block back to itself took no symbolic branch: a loop with a concrete
+                # trip count (iteration over a constant table) is unrolled
+                fr.revisits += 1
+                fr.visited = fr.visited - {bi}
             if bi in fr.visited:
                 if self.loops == "havoc" and bi in self.loop_info(fr.mir):
                     cs, assigned, through = self.loop_info(fr.mir)[bi]
@@ -941,7 +1090,9 @@ class Exec:
                     return ("backedge", fr.body.ident(), bi, snap)
                 raise Unsupported("loop in %s" % fr.body.ident())
             fr.visited = fr.visited | {bi}
-            if self.loops == "havoc" and bi in self.loop_info(fr.mir):
+            first_visit = bi not in fr.seen_at
+            fr.seen_at[bi] = st.nforks
+            if self.loops == "havoc" and bi in self.loop_info(fr.mir) and first_visit and not self.concrete_loop(st, fr, bi):
                 self.havoc(st, fr, bi)
             b = fr.mir["blocks"][bi]
             for s in b["s"]:
